@@ -60,5 +60,25 @@ def keysDeepM (p : Path) : Bool := keysIn (fun k => deepKey k.unmarkDeep) p
 theorem pathRules_lawfulOn_deepM : pathRules.LawfulOn (fun p => keysDeepM p = true) :=
   pathRules_lawfulOn_in deepKey_equiv.unmarkDeep
 
+theorem keysIn_take (K : Value → Bool) : ∀ (p : Path) (n : Nat), keysIn K p = true → keysIn K (p.take n) = true
+  | [], n, _ => by cases n <;> rfl
+  | _ :: _, 0, _ => rfl
+  | .getAttr _ :: p, n + 1, h => by
+    simp only [List.take_succ_cons, keysIn] at h ⊢
+    exact keysIn_take K p n h
+  | .index k :: p, n + 1, h => by
+    simp only [List.take_succ_cons, keysIn, Bool.and_eq_true] at h ⊢
+    exact ⟨h.1, keysIn_take K p n h.2⟩
+
+abbrev DeepPathM := { p : Path // keysDeepM p = true }
+
+/-- the very functions of `pathRules`, on the subtype -/
+def deepRulesM : Rules DeepPathM := pathRules.pull Subtype.val
+
+theorem deepRulesM_lawful : deepRulesM.Lawful := pathRules_lawfulOn_deepM.pull
+
+def prefixesDM (p : DeepPathM) : List DeepPathM :=
+  (List.range p.1.length).map fun i => ⟨p.1.take (i + 1), keysIn_take _ p.1 (i + 1) p.2⟩
+
 end PathSet
 end CtyModel
